@@ -173,14 +173,22 @@ def read(text, case, d):
     from biom import load_table, Table
     from biom.parse import parse_biom_table
     how = case["reader"]
-    if how == "load_table":
-        p = os.path.join(d, "t.biom")
-        with open(p, "w", encoding="utf8") as f:
-            f.write(text)
-        return load_table(p)
-    if how == "load_table_gz":
-        p = os.path.join(d, "t.biom.gz")
-        with gzip.open(p, "wt", encoding="utf8") as f:
+    if how in ("load_table", "load_table_gz"):
+        p = os.path.join(d, "t.biom" + (".gz" if how.endswith("gz") else ""))
+        opener = (lambda: gzip.open(p, "wt", encoding="utf8")) \
+            if how.endswith("gz") else \
+            (lambda: open(p, "w", encoding="utf8"))
+        if case.get("chunk", 0) % 3 == 0:
+            # the path held a different document a moment ago (and was
+            # loaded): what is read now must be what the path holds now
+            other = Table(np.array([[5.0, 0.0], [0.0, 7.0]]),
+                          ["earlier-o1", "earlier-o2"],
+                          ["earlier-s1", "earlier-s2"])
+            with opener() as f:
+                f.write(other.to_json("earlier"))
+            load_table(p)
+            os.remove(p)
+        with opener() as f:
             f.write(text)
         return load_table(p)
     if how == "parse_stringio":
